@@ -11,13 +11,13 @@ var lcCensus = map[string]string{
 	"tensor.(StdEng).OptimizedReduce#storage.CopySliced1": "after prepReduce refused iterator-requiring operands (LG L1)",
 	"tensor.(StdEng).Reduce#storage.CopySliced1":          "after prepReduce refused iterator-requiring operands (LG L1)",
 	"tensor.(StdEng).denseConcat#copyArray1":              "scalar-equivalent operand and slot: one element",
-	"tensor.(StdEng).denseRepeat#copyDenseSliced1":        "finding 32 (LG L1 known finding): operand layout not consulted",
+	"tensor.(StdEng).denseRepeat#copyDenseSliced1":        "views and lazily transposed operands are materialised first (LG L1; finding 32 fixed)",
 	"tensor.(StdEng).denseSimpleStack#copyDense1":         "reached only under the layout accumulator (LA, LG L1)",
 	"tensor.(StdEng).denseSimpleStack#copyDenseSliced1":   "reached only under the layout accumulator (LA, LG L1)",
 	"tensor.(StdEng).denseSimpleStack#copyDenseSliced2":   "reached only under the layout accumulator (LA, LG L1)",
 	"tensor.(StdEng).denseSimpleStack#copyDenseSliced3":   "reached only under the layout accumulator (LA, LG L1)",
-	"tensor.(StdEng).fastCopyDenseRepeat#copy1":           "finding 32: operand layout not consulted by denseRepeat",
-	"tensor.(StdEng).fastCopyDenseRepeat#storage.Copy1":   "finding 32: operand layout not consulted by denseRepeat",
+	"tensor.(StdEng).fastCopyDenseRepeat#copy1":           "reached from denseRepeat after views were materialised (LG L1; finding 32 fixed)",
+	"tensor.(StdEng).fastCopyDenseRepeat#storage.Copy1":   "reached from denseRepeat after views were materialised (LG L1; finding 32 fixed)",
 	"tensor.(StdEng).selectByIdx#storage.CopySliced1":     "SelectByIndices is outside every property",
 	"tensor.(StdEng).selectByIdx#storage.CopySliced2":     "SelectByIndices is outside every property",
 	"tensor.AsFortran$1#copyArray1":                         "constructor operating on the tensor under construction",
